@@ -2044,23 +2044,23 @@ Proof.
     unfold do_add in H. destruct direct.
     + simpl in H. apply Hadd in H. subst. simpl. eauto 8.
     + unfold take_buf in H. destruct pick as [b|]; [destruct (existsb _ _)|]; simpl in H; apply Hadd in H; subst; simpl; eauto 8.
-  - exfalso. eapply Hlen; [|exact H]. unfold do_write. destruct (nth_error _ _) as [wr0|]; [|reflexivity].
+  - exfalso. eapply Hlen; [|exact H]. unfold do_write. destruct (nth_error (writers s) w0) as [wr0|]; [|reflexivity].
     destruct (w_active wr0); [|reflexivity]. destruct (w_buf wr0); simpl; apply RP.upd_length.
-  - exfalso. eapply Hlen; [|exact H]. unfold do_commit. destruct (nth_error _ _) as [wr0|]; [|reflexivity].
+  - exfalso. eapply Hlen; [|exact H]. unfold do_commit. destruct (nth_error (writers s) w0) as [wr0|]; [|reflexivity].
     destruct (w_active wr0); [|reflexivity]. destruct (w_buf wr0); [|simpl; apply RP.upd_length].
     destruct (R.step _ _) as [c' [[i added]|]]; [|reflexivity].
     destruct added; simpl; rewrite writers_dc_apply; simpl; rewrite !RP.upd_length; reflexivity.
-  - exfalso. eapply Hlen; [|exact H]. unfold do_pwrite. destruct (nth_error _ _) as [wr0|]; [|reflexivity].
+  - exfalso. eapply Hlen; [|exact H]. unfold do_pwrite. destruct (nth_error (writers s) w0) as [wr0|]; [|reflexivity].
     destruct (w_ps wr0) as [|[|?] ? ?]; try reflexivity. simpl. apply RP.upd_length.
-  - exfalso. eapply Hlen; [|exact H]. unfold do_pfail. destruct (nth_error _ _) as [wr0|]; [|reflexivity].
+  - exfalso. eapply Hlen; [|exact H]. unfold do_pfail. destruct (nth_error (writers s) w0) as [wr0|]; [|reflexivity].
     destruct (w_ps wr0) as [|[|?] ? ?]; try reflexivity. simpl. apply RP.upd_length.
-  - exfalso. eapply Hlen; [|exact H]. unfold do_prename. destruct (nth_error _ _) as [wr0|]; [|reflexivity].
+  - exfalso. eapply Hlen; [|exact H]. unfold do_prename. destruct (nth_error (writers s) w0) as [wr0|]; [|reflexivity].
     destruct (w_ps wr0) as [|[|[|?]] ? ?]; try reflexivity. simpl. apply RP.upd_length.
-  - exfalso. eapply Hlen; [|exact H]. unfold do_pdone. destruct (nth_error _ _) as [wr0|]; [|reflexivity].
+  - exfalso. eapply Hlen; [|exact H]. unfold do_pdone. destruct (nth_error (writers s) w0) as [wr0|]; [|reflexivity].
     destruct (w_ps wr0) as [|[|[|[|?]]] ? ?]; try reflexivity. unfold dc_release. rewrite writers_dc_apply. simpl. apply RP.upd_length.
-  - exfalso. eapply Hlen; [|exact H]. unfold do_abort. destruct (nth_error _ _) as [wr0|]; [|reflexivity].
+  - exfalso. eapply Hlen; [|exact H]. unfold do_abort. destruct (nth_error (writers s) w0) as [wr0|]; [|reflexivity].
     destruct (w_active wr0); [|reflexivity]. destruct (w_buf wr0); simpl; apply RP.upd_length.
-  - exfalso. eapply Hlen; [|exact H]. unfold do_closew. destruct (nth_error _ _) as [wr0|]; [|reflexivity]. simpl. apply RP.upd_length.
+  - exfalso. eapply Hlen; [|exact H]. unfold do_closew. destruct (nth_error (writers s) w0) as [wr0|]; [|reflexivity]. simpl. apply RP.upd_length.
   - exfalso. eapply Hlen; [|exact H].
     assert (Hm : writers (fst (get_mem s k)) = writers s).
     { unfold get_mem. destruct (R.step _ _) as [c' [[i fl]|]]; simpl; [apply writers_dc_apply|reflexivity]. }
